@@ -45,6 +45,9 @@ func (w *wbuild) setupFaults(m *Machine) {
 	fs.crash = c.Choose(2, "faultkind:crash") == 1
 	fs.signal = c.Choose(3, "faultkind:signal") == 2
 	fs.damage = c.Choose(3, "faultkind:cache-damage") == 2
+	if w.alwaysDamage {
+		fs.damage = true // damage=1: losses between invocations in every run of this job
+	}
 	switch w.focus {
 	case "sweep":
 		fs.kinds = map[string]bool{}
